@@ -52,8 +52,8 @@ inductive AftSt where
 
 /-- the shapes of `*spb.ModifyResponse` the translated functions build -/
 inductive MResp where
-  /-- `{Result: [{Id, Status}]}` -/
-  | result (id : Nat) (st : AftSt)
+  /-- `{Result: [{Id, Status}, …]}` -/
+  | results (l : List (Nat × AftSt))
   /-- `{SessionParamsResult: {Status: OK}}` -/
   | paramsOk
   /-- `{ElectionId: e}` -/
@@ -103,6 +103,23 @@ structure SessionParameters where
   AckType : Nat
   deriving DecidableEq, Repr, Inhabited
 
+/-- `rib.OpResult` as the server looks at it -/
+structure OpResult where
+  ID : Nat
+  deriving DecidableEq, Repr, Inhabited
+
+/-- `spb.AFTOperation` as `modifyEntry` looks at it (`Op` by wire number) -/
+structure AFTOperation where
+  Id : Nat
+  ElectionId : Option U128
+  Op : Nat
+  deriving DecidableEq, Repr, Inhabited
+
+def AFTOperation_INVALID : Nat := 0
+def AFTOperation_ADD : Nat := 1
+def AFTOperation_REPLACE : Nat := 2
+def AFTOperation_DELETE : Nat := 3
+
 /-- `spb.FlushRequest`: the two oneofs as seen through the getters -/
 structure FlushRequest where
   /-- `GetNetworkInstance()`: nil or some oneof wrapper -/
@@ -149,6 +166,20 @@ inductive Eff where
   | checkClientsConsistent (id : String) (p : Option ClientParams)
   | setClientParams (id : String) (p : Option ClientParams)
   | storeClientElectionID (id : String) (e : Option U128)
+  | checkParams (id : String) (p : Option SessionParameters) (gotMsg : Bool)
+  | updateParams (id : String) (p : Option SessionParameters)
+  | runElection (id : String) (e : Option U128)
+  | doModify (id : String)
+  | send (r : Option MResp)
+  | addEntry (ni : String) (op : Option AFTOperation)
+  | deleteEntry (ni : String) (op : Option AFTOperation)
+  deriving DecidableEq, Repr, Inhabited
+
+/-- outcome of one iteration of the Modify receive loop: the RPC ends with this error (`none` =
+clean end), or the loop goes on with the new first-message flag -/
+inductive LoopOut where
+  | term (err : Option Status) (effs : List Eff)
+  | cont (gotmsg : Bool) (effs : List Eff)
   deriving DecidableEq, Repr, Inhabited
 
 end Gribi.Gen
